@@ -672,7 +672,7 @@ func replaceField(rec ir.Value, i int, v ir.Value) ir.Value {
 
 func TestRandomTemplates(t *testing.T) {
 	ev.SetChecks(ev.Scale(4000, 400000))
-	rapid.Check(t, func(rt *rapid.T) {
+	ev.Check(t, func(rt *rapid.T) {
 		c := genCase(rt)
 		if !run(c, "random", func(string, string) {}) {
 			rt.Fatalf("C05/random: batch authorization differs from brute force")
@@ -683,7 +683,7 @@ func TestRandomTemplates(t *testing.T) {
 // TestFaultPositions: for generated templates, EVERY position k of the product is tried as the failing / cancelling call.
 func TestFaultPositions(t *testing.T) {
 	ev.SetChecks(ev.Scale(300, 20000))
-	rapid.Check(t, func(rt *rapid.T) {
+	ev.Check(t, func(rt *rapid.T) {
 		c := genCase(rt)
 		n := len(product(c))
 		if len(c.Vars) == 0 || n == 0 || n > 40 {
@@ -821,6 +821,9 @@ func TestReplay(t *testing.T) {
 	}
 	if err != nil {
 		t.Fatal(err)
+	}
+	if ev.ReplayFuzz(t, rf, fuzzProps, nil) {
+		return
 	}
 	var c Case
 	if err := json.Unmarshal(rf.Case, &c); err != nil {
